@@ -38,7 +38,7 @@ static bool inv_quiescent(const Instance& f) {
   if (f._core.requests.count() != 0) return false;
   return true;
 }
-static bool inv_monitor(const Instance& f) { for (int s = 0; s < VM_NS; ++s) if (g_entered[s] != spec_active(f, s)) return false; return true; }
+static bool inv_monitor(const Instance& f) { for (int s = 0; s < VM_NS; ++s) if (VM_HAS_STUB(s) && g_entered[s] != spec_active(f, s)) return false; return true; }
 static bool inv_all(const Instance& f) { return inv_config(f) && inv_quiescent(f) && inv_monitor(f); }
 
 // the API's own answers agree with the view (C01/C13, asserted after every step)
